@@ -227,6 +227,9 @@ func (m *lm) observe(opDesc string) {
 		prevConf := m.conf[i]
 		s, err := m.w.Snapshot(n)
 		if err != nil {
+			if errors.Is(err, sim.ErrStuck) {
+				m.stuckViol("snapshot", err)
+			}
 			m.stuck = fmt.Errorf("snapshot node %d: %w", i, err)
 			return
 		}
@@ -882,7 +885,7 @@ func (m *lm) opDeliverAll() string {
 	m.noteResult("C01", r, "AddLeaf")
 	// drain parked orphans as far as they go
 	for k := 0; k < 60; k++ {
-		if len(m.w.Nodes[n].Book.VerifParkedList()) == 0 {
+		if len(sim.ParkedList(m.w.Nodes[n].Book)) == 0 {
 			break
 		}
 		rr := m.w.Apply(sim.Op{K: "retry", N: n})
@@ -1356,7 +1359,7 @@ func lmRun(rt *rapid.T, focus string, cfg lmConfig, seed string) (*lm, []string,
 		for round := 0; round < 3; round++ {
 			for i := range m.w.Nodes {
 				m.w.Apply(sim.Op{K: "deliverAll", N: i})
-				for k := 0; k < 80 && len(m.w.Nodes[i].Book.VerifParkedList()) > 0; k++ {
+				for k := 0; k < 80 && len(sim.ParkedList(m.w.Nodes[i].Book)) > 0; k++ {
 					m.w.Apply(sim.Op{K: "retry", N: i})
 				}
 			}
